@@ -30,6 +30,7 @@ import (
 	"verifsim/schedconn"
 	"verifsim/shimmodel"
 	"verifsim/sim"
+	"verifsim/simtime"
 	"verifsim/worlds"
 )
 
@@ -132,6 +133,9 @@ func genC11(r *sim.Rng, tier string) any {
 				op.Arg = pick(r, []string{"pw", "pw", "other"})
 			case "forward":
 				op.N = pick(r, []int{0, 2, 7, 20, 21, 28, 100, 200})
+			}
+			if op.Op == "add" && r.Bool(0.3) {
+				op.N = pick(r, []int{3600, 86400, 1 << 30})
 			}
 			ops = append(ops, op)
 		}
@@ -420,6 +424,7 @@ func execC11(t *testing.T, raw json.RawMessage) *sim.Outcome {
 	}
 	s := sched.New(p.Strategy, 40000)
 	s.KeepLog = false
+	timersBefore := simtime.Fired()
 	a, b := schedconn.Pipe("upstream")
 	a.LateAt = p.Late
 	peer := &refagent.Peer{Agent: ref}
@@ -513,7 +518,8 @@ func execC11(t *testing.T, raw json.RawMessage) *sim.Outcome {
 					rs.tagErr(fmt.Sprintf("task %d op %d sign %s: the returned signature does not verify over the caller's own data", task, idx, op.Role))
 				}
 			case "add":
-				err = shim.Add(cat.Added(op.Role, 0))
+				// a lifetime far beyond the run: nothing expires by itself while the run lasts
+				err = shim.Add(cat.Added(op.Role, uint32(op.N)))
 			case "remove":
 				err = shim.Remove(cat.Pub(op.Role))
 			case "removeall":
@@ -527,6 +533,7 @@ func execC11(t *testing.T, raw json.RawMessage) *sim.Outcome {
 			case "ext":
 				var out []byte
 				out, err = shim.Extension("echo@verif", data)
+				s.Yield("use-reply", "caller") // callers look at what they got back later, while others go on
 				if err == nil && string(out) != "echo:"+string(data) {
 					rs.tagErr(fmt.Sprintf("task %d op %d extension: reply %q is not the answer to this caller's request %q", task, idx, out, data))
 				}
@@ -534,6 +541,7 @@ func execC11(t *testing.T, raw json.RawMessage) *sim.Outcome {
 				req := append([]byte{byte(op.N)}, data...)
 				var out []byte
 				out, err = shim.Forward(req)
+				s.Yield("use-reply", "caller")
 				if err == nil && !bytes.Equal(out, append([]byte{0xEE}, req...)) {
 					rs.tagErr(fmt.Sprintf("task %d op %d forward: reply %q is not the answer to this caller's request %q", task, idx, out, req))
 				}
@@ -678,6 +686,17 @@ func execC11(t *testing.T, raw json.RawMessage) *sim.Outcome {
 		o.Fail("C11.own_reply", "foreign_reply", 0, "%s", e)
 	}
 	checkDiscipline(o, a, b)
+	if n := simtime.Fired() - timersBefore; n > 0 {
+		// The code under test armed callback timers and the scheduler fired them (at arbitrary moments: a scheduled
+		// run has no clock). What such a callback does is not an operation of the sequential model, so - as for an
+		// expired deadline - the linearizability verdict is not drawn; races, crashes, reply ownership, transport
+		// discipline and completion are.
+		for i := 0; i < n; i++ {
+			o.Fault("callback_timer_fired")
+		}
+		o.Signature = fmt.Sprintf("timers:%d:%s", n, s.OrderHash())
+		return o
+	}
 	if a.Expired > 0 {
 		// The shim gave up on a reply: what the abandoned request did to the underlying agent and which later
 		// calls may legitimately fail is no longer determined, so only completion, crashes, reply ownership and
@@ -693,6 +712,9 @@ func execC11(t *testing.T, raw json.RawMessage) *sim.Outcome {
 		in := linIn{Op: h.Op, Wire: p.Wire && h.Task < len(p.Tasks)}
 		if h.Op.Role != "" {
 			in.Ident = cat.Ident(h.Op.Role, 0, now)
+			if h.Op.Op == "add" {
+				in.Ident = cat.Ident(h.Op.Role, uint32(h.Op.N), now)
+			}
 		}
 		ops = append(ops, porcupine.Operation{ClientId: h.Task, Input: in, Output: h.Out, Call: int64(h.Call), Return: int64(h.Ret)})
 		if h.Ret > maxRet {
